@@ -164,6 +164,9 @@ def check_proofs(prop: str, thorough: bool) -> dict:
     thms = re.findall(r"^\s*(?:Theorem|Corollary)\s+(\w+)", src, re.M)
     res["theorems"] = thms
     res["obligations"] = max(len(thms), len(re.findall(r"^\s*Print Assumptions", src, re.M)))
+    # house rule: every property theorem is instantiated by an Example (non-vacuity); reported, not enforced
+    examples = re.findall(r"^\s*Example\s+\w+[\s\S]*?^\s*Qed\.", src, re.M)
+    res["theorems_without_example"] = [t for t in thms if not any(re.search(r"\b" + re.escape(t) + r"\b", e) for e in examples)]
     cmd = ["timeout", "900", "coqc", "-R", "theories", "DictIO", f"theories/Properties/{prop}.v"]
     res["checker_cmd"] = "cd /verif/coq && make (full .vo build) && " + " ".join(cmd[2:])
     p = subprocess.run(cmd, cwd=COQ, capture_output=True, text=True, check=False)
@@ -402,6 +405,7 @@ def write_evidence(ctx: Ctx, proofs: dict, exit_code: int):
         "notes": ctx.notes[:40],
     }
     cov.update(ctx.extra)
+    cov["theorems_without_instantiating_example"] = proofs.get("theorems_without_example", [])
     if "coqchk" in proofs:
         cov["coqchk_tail"] = proofs["coqchk"][-600:]
     ev = {
